@@ -317,6 +317,7 @@ impl Exec {
                     return;
                 }
                 let cnt = args.first().and_then(|v| v.as_u64()).unwrap_or(1) as usize;
+                let kind = args.get(1).and_then(|v| v.as_u64()).unwrap_or(0) as u8;
                 let mut cs = vec![];
                 for _ in 0..cnt {
                     if self.next_child < nscripts {
@@ -329,13 +330,22 @@ impl Exec {
                 }
                 with(|w| w.ensure_child(*cs.last().unwrap()));
                 let cs2 = cs.clone();
-                let r = catch_unwind(AssertUnwindSafe(|| cut.op(if from_iter { Op::FromIter(cs2) } else { Op::Extend(cs2) })));
+                let r = catch_unwind(AssertUnwindSafe(|| cut.op(if from_iter { Op::FromIter(cs2, kind) } else { Op::Extend(cs2, kind) })));
                 match r {
                     Ok(OpRes::Keys(ks)) => {
                         with(|w| {
-                            if from_iter {
-                                w.ev(format_args!("{{\"e\":\"fromiter\",\"n\":{}}}", cs.len()));
-                            }
+                            // the upper bound of the iterator's size hint: what the reservation is sized from
+                            let hint = match kind {
+                                1 => 0,
+                                2 => cs.len() + 2,
+                                _ => cs.len(),
+                            };
+                            w.ev(format_args!(
+                                "{{\"e\":\"{}\",\"n\":{},\"hint\":{}}}",
+                                if from_iter { "fromiter" } else { "extend" },
+                                cs.len(),
+                                hint
+                            ));
                             for (c, k) in cs.iter().zip(ks.iter()) {
                                 w.ev(format_args!("{{\"e\":\"insert\",\"c\":{},\"key\":{}}}", c, k));
                             }
